@@ -37,7 +37,7 @@ func setupToolchain() {
 		}
 	}
 	os.Setenv("GOTOOLCHAIN", "local")
-	os.Setenv("GOFLAGS", "-mod=mod")
+	os.Setenv("GOFLAGS", "-mod=readonly")
 	os.Setenv("GOPROXY", "off")
 	os.Setenv("CGO_ENABLED", "0")
 }
